@@ -142,6 +142,9 @@ class Model:
                 if obj.size > 1:
                     raise ValueError('Incorrect function dimension.')
 
+        if isinstance(obj, (Convex, PiecewiseConvex)) and obj.sign == -1:
+            raise ValueError('Nonconvex objective function.')
+
         self.obj = obj
         self.sign = 1
         self.pupdate = True
@@ -172,6 +175,9 @@ class Model:
             else:
                 if obj.size > 1:
                     raise ValueError('Incorrect function dimension.')
+
+        if isinstance(obj, (Convex, PiecewiseConvex)) and obj.sign == 1:
+            raise ValueError('Nonconvex objective function.')
 
         self.obj = obj
         self.sign = - 1
@@ -218,6 +224,9 @@ class Model:
                 raise ValueError('Models mismatch.')
             sup_model.st(item)
 
+        if isinstance(obj, (Convex, PiecewiseConvex)) and obj.sign == -1:
+            raise ValueError('Nonconvex objective function.')
+
         self.obj = obj
         self.obj_support = sup_model.do_math(primal=False, obj=False)
         self.sign = 1
@@ -263,6 +272,9 @@ class Model:
             if item.model is not sup_model:
                 raise ValueError('Models mismatch.')
             sup_model.st(item)
+
+        if isinstance(obj, (Convex, PiecewiseConvex)) and obj.sign == 1:
+            raise ValueError('Nonconvex objective function.')
 
         self.obj = obj
         self.obj_support = sup_model.do_math(primal=False, obj=False)
